@@ -34,6 +34,18 @@
         } \
     } while(0)
 
+/* The top-level lists of a footer hold structs. A non-empty list announcing
+ * another element type is not that list: decoding its bytes as structs would
+ * accept arbitrary data as metadata. */
+#define REQUIRE_STRUCT_LIST(elem_type, count, what, error) \
+    do { \
+        if ((count) > 0 && (elem_type) != THRIFT_TYPE_STRUCT) { \
+            CARQUET_SET_ERROR(error, CARQUET_ERROR_INVALID_METADATA, \
+                "FileMetaData.%s is not a list of structs", (what)); \
+            return CARQUET_ERROR_INVALID_METADATA; \
+        } \
+    } while(0)
+
 #define VALIDATE_COUNT_STATUS(count, max, error) \
     do { \
         if ((count) < 0 || (count) > (max)) { \
@@ -603,6 +615,7 @@ carquet_status_t parquet_parse_file_metadata(
                 thrift_type_t elem_type;
                 int32_t count;
                 thrift_read_list_begin(&dec, &elem_type, &count);
+                REQUIRE_STRUCT_LIST(elem_type, count, "schema", error);
                 VALIDATE_COUNT_STATUS(count, CARQUET_MAX_SCHEMA_ELEMENTS, error);
                 metadata->num_schema_elements = count;
                 metadata->schema = carquet_arena_calloc(arena, count,
@@ -619,6 +632,7 @@ carquet_status_t parquet_parse_file_metadata(
                 thrift_type_t elem_type;
                 int32_t count;
                 thrift_read_list_begin(&dec, &elem_type, &count);
+                REQUIRE_STRUCT_LIST(elem_type, count, "row_groups", error);
                 VALIDATE_COUNT_STATUS(count, CARQUET_MAX_ROW_GROUPS, error);
                 metadata->num_row_groups = count;
                 metadata->row_groups = carquet_arena_calloc(arena, count,
@@ -632,6 +646,7 @@ carquet_status_t parquet_parse_file_metadata(
                 thrift_type_t elem_type;
                 int32_t count;
                 thrift_read_list_begin(&dec, &elem_type, &count);
+                REQUIRE_STRUCT_LIST(elem_type, count, "key_value_metadata", error);
                 VALIDATE_COUNT_STATUS(count, CARQUET_MAX_KEY_VALUE_PAIRS, error);
                 metadata->num_key_value = count;
                 metadata->key_value_metadata = carquet_arena_calloc(arena, count,
